@@ -179,7 +179,7 @@ def correspondence(row):
 
 def parse_pargs(s):
     out = []
-    for a in filter(None, s.split("+")):
+    for a in filter(None, s.split("&")):
         nm, so, pv = a.split("~", 2)
         out.append((nm, so, pv))
     return out
@@ -195,7 +195,7 @@ def parse_wiring(s):
             insts.append(("N", comp, parse_pargs(args)))
         else:
             insts.append(("B", "", parse_pargs(body)))
-    exports = parse_pargs(parts["exports"].replace(";", "+"))
+    exports = parse_pargs(parts["exports"].replace(";", "&"))
     comps = [c for c in parts["comps"].split(";") if c]
     names = [tuple(n.split("~", 2)) for n in parts["names"].split(";") if n]
     return dict(insts=insts, exports=exports, comps=comps, names=names)
